@@ -363,6 +363,87 @@ func runC17(x *X) {
 			x.Nontrivial(fmt.Sprint(d))
 		}
 	})
+	// one long-lived TextTable whose decoration is changed between renders: it must refuse to render
+	// exactly while its current decoration name is unknown
+	ldepth := x.Pick(5, 6)
+	x.Explore("texttable-lifecycle", ExploreOpts{ShardDepth: 2, Bound: fmt.Sprintf("all sequences of <=%d operations {SetDecorationNamed(known a), SetDecorationNamed(known b), SetDecorationNamed(unknown), SetDecoration(custom), Register(unknown name), Render} on one TextTable", ldepth)}, func(c *Chooser) {
+		serial := nextSerial(x)
+		late := "late" + serial
+		defer resetNames(late)
+		tt := texttable.New()
+		tt.AddHeaders("h")
+		tt.AddRowItems("a")
+		cur, curName := decoration.UTF8BoxHeavy(), "default"
+		lateRegistered := false
+		var ops []string
+		renders := 0
+		for i := 0; i < ldepth; i++ {
+			k := c.Choose(7)
+			if k == 0 {
+				break
+			}
+			x.Transition(1)
+			switch k {
+			case 1, 2:
+				n := []string{"ascii-simple", "utf8-double"}[k-1]
+				c.Logf("tt.SetDecorationNamed(%q)", n)
+				_, err := tt.SetDecorationNamed(n)
+				x.Clause("C17.fails_closed")
+				if err != nil {
+					x.Fail("C17.fails_closed", []string{"lifecycle"}, "SetDecorationNamed(%q) of a built-in name returned %v", n, err)
+				}
+				cur, curName = decoration.Named(n), n
+			case 3:
+				c.Logf("tt.SetDecorationNamed(%q)   // registered yet: %v", late, lateRegistered)
+				_, err := tt.SetDecorationNamed(late)
+				x.Clause("C17.fails_closed")
+				if (err != nil) != !lateRegistered {
+					x.Fail("C17.fails_closed", []string{"lifecycle"}, "SetDecorationNamed(%q) returned error=%v although registered=%v; ops %v", late, err, lateRegistered, ops)
+				}
+				if lateRegistered {
+					cur, curName = decorFor(1), late
+				} else {
+					cur, curName = decoration.EmptyDecoration, "unknown"
+				}
+			case 4:
+				c.Logf("tt.SetDecoration(custom)")
+				tt.SetDecoration(customDecoration())
+				cur, curName = customDecoration(), "custom"
+			case 5:
+				c.Logf("decoration.RegisterDecorationName(%q, d1)   // does not change the table's current decoration", late)
+				decoration.RegisterDecorationName(late, decorFor(1))
+				lateRegistered = true
+			case 6:
+				c.Logf("tt.Render()   // current decoration: %s", curName)
+				out, err := tt.Render()
+				renders++
+				tags := []string{"lifecycle", "fails_closed"}
+				if renders > 1 {
+					tags = append(tags, "rendered_before_decoration_changed")
+				}
+				x.Clause("C17.fails_closed")
+				if cur == decoration.EmptyDecoration {
+					if err == nil || out != "" {
+						x.Fail("C17.fails_closed", tags, "the table's decoration name is unknown, yet Render returned %d bytes and error %v (it must refuse to render); ops %v\n%s", len(out), err, ops, out)
+					}
+				} else {
+					ref := texttable.New()
+					ref.AddHeaders("h")
+					ref.AddRowItems("a")
+					ref.SetDecoration(cur)
+					want, _ := ref.Render()
+					if err != nil || out != want {
+						x.Fail("C17.fails_closed", tags, "current decoration %s: Render gives (err %v)\n%s\nwant\n%s\nops %v", curName, err, out, want, ops)
+					}
+				}
+			}
+			ops = append(ops, fmt.Sprint(k))
+		}
+		x.State(fmt.Sprint(ops))
+		if renders > 0 && len(ops) > 1 {
+			x.Nontrivial(fmt.Sprint(ops))
+		}
+	})
 	runC17sched(x, "3-threads-1-op", 3, 1, x.Pick(2, 4))
 	runC17sched(x, "2-threads-2-ops", 2, 2, x.Pick(3, 1000))
 	if x.Thorough() {
@@ -433,9 +514,9 @@ func c16Body(f c16Format, id int, out *[]string, yield func(string)) {
 	yield("AddHeaders")
 	t.AddHeaders("k1", "k2")
 	yield("AddRowItems")
-	t.AddRowItems(tag+"a", 10*id)
+	t.AddRowItems(tag+"a-é", 10*id)
 	yield("AddRowItems")
-	t.AddRowItems(tag+"b\nline2", nil)
+	t.AddRowItems(tag+"b\nｗｗ line2", nil)
 	var cblog []string
 	yield("RegisterPropertyCallback")
 	if err := t.RegisterPropertyCallback(t, tabular.CB_AT_RENDER_PRECELL, tabular.CB_ON_CELL, &c16CB{&cblog, tag}); err != nil {
@@ -469,6 +550,26 @@ func c16RegistryBody(serial string, out *[]string, yield func(string)) {
 
 func runC16(x *X) {
 	formats := c16Formats()
+	// cold start: the very first thing this process does with the library is a concurrent program,
+	// so that lazily initialised package state is initialised under the scheduler's eyes.
+	var coldOuts [][]string
+	var coldFormats []int
+	x.Explore("cold-start", ExploreOpts{Cold: true, Bound: "one program per worker process (format pair chosen by shard number), executed before anything else touches the library; default schedule with one forced switch"}, func(c *Chooser) {
+		p := c.Choose(x.NShards)
+		fi := []int{p % len(formats), (p/2 + 3) % len(formats)}
+		coldFormats = fi
+		desc := "cold: " + formats[fi[0]].name + " || " + formats[fi[1]].name
+		c.Logf("program %s", desc)
+		outs := make([][]string, 2)
+		bodies := []func(){
+			func() { c16Body(formats[fi[0]], 0, &outs[0], vrt.Yield) },
+			func() { c16Body(formats[fi[1]], 1, &outs[1], vrt.Yield) },
+		}
+		res := schedule(c, bodies, 0)
+		coldOuts = outs
+		schCommon(x, c, "C16", res, []string{"family:cold-start", "first_use_in_process"}, desc)
+		x.Nontrivial(desc)
+	})
 	// outputs of each body when run alone (sequentially, unmanaged)
 	alone := map[string][]string{}
 	for i, f := range formats {
@@ -476,6 +577,16 @@ func runC16(x *X) {
 			var out []string
 			c16Body(f, id, &out, func(string) {})
 			alone[fmt.Sprint(i, id)] = out
+		}
+	}
+	if coldOuts != nil {
+		x.Clause("C16.equal_alone")
+		for t := 0; t < 2; t++ {
+			want := alone[fmt.Sprint(coldFormats[t], t)]
+			if strings.Join(coldOuts[t], "\x00") != strings.Join(want, "\x00") {
+				x.curFamily = "cold-start"
+				x.Fail("C16.equal_alone", []string{"family:cold-start"}, "cold-start thread %d (%s) produced\n%s\nbut alone it produces\n%s", t, formats[coldFormats[t]].name, strings.Join(coldOuts[t], "\n"), strings.Join(want, "\n"))
+			}
 		}
 	}
 	run := func(family string, nthreads int, withRegistry bool, bound int) {
@@ -543,7 +654,7 @@ func init() {
 		Level:     "model_checking",
 		Overlay:   true,
 		Technique: "stateless model checking of the real registry code under a cooperative scheduler (overlay-instrumented: sync shim + access hooks on mutable package-level variables), all interleavings per program; vector-clock race detection and brute-force linearizability against a sequential map; plus exhaustive sequential histories",
-		Rule: "family sequential: every sequence of <=4 (thorough 5) operations from {Register(n,d1), Register(n,d2), Register(m,d1), Named(n), Named(never), List, SetDecorationNamed(n)+Render, SetDecorationNamed(never)+Render} checked against a map model after each step (incl. fails-closed: unknown name => error and refused render); " +
+		Rule: "family texttable-lifecycle: every sequence of <=5 (thorough 6) operations {set a known name, another known name, an unknown name, a custom decoration, register the unknown name, Render} on ONE long-lived TextTable (refuses to render exactly while its current name is unknown, otherwise renders with the current decoration); family sequential: every sequence of <=4 (thorough 5) operations from {Register(n,d1), Register(n,d2), Register(m,d1), Named(n), Named(never), List, SetDecorationNamed(n)+Render, SetDecorationNamed(never)+Render} checked against a map model after each step (incl. fails-closed: unknown name => error and refused render); " +
 			"families 3-threads-1-op (8^3 programs, <=2 preemptions; thorough <=4), 2-threads-2-ops (8^4 programs, <=3 preemptions; thorough all), thorough 3-threads-2-ops (<=2 preemptions): names forced to collide, every schedule explored, each followed by final reads; " +
 			"oracle per schedule: no deadlock, no panic, no pair of conflicting accesses to the registry map unordered by happens-before, and the call/return history linearizable; non-trivial = every concurrent program; distinct by program and by observed outcome vector",
 		Assumptions: []string{"interleavings are explored at the granularity of hooked points (sync operations, accesses to package-level variables that are assigned outside init, harness yields); memory-model effects below that are only seen by the separate free-running -race pass",
@@ -556,7 +667,7 @@ func init() {
 		Level:     "model_checking",
 		Overlay:   true,
 		Technique: "stateless model checking of concurrent build+render programs on the real code under a cooperative scheduler (overlay-instrumented), preemption-bounded DFS; per-schedule oracle: outputs equal the same program run alone, vector-clock race freedom on instrumented package-level state, no deadlock",
-		Rule: "programs: every ordered pair of 6 formats (csv, json, markdown, html+row classes, text by registered name, text custom), each thread creating its own table through that package's New, populating it, registering a recording render callback and rendering twice to its own writer, with and without a third thread that registers a decoration, lists and looks up names; " +
+		Rule: "family cold-start: in each of the 16 worker processes the very first use of the library is a two-thread program (lazily initialised package state is initialised under the scheduler); programs: every ordered pair of 6 formats (csv, json, markdown, html+row classes, text by registered name, text custom), each thread creating its own table through that package's New, populating it, registering a recording render callback and rendering twice to its own writer, with and without a third thread that registers a decoration, lists and looks up names; " +
 			"scheduling points: every Write on the threads' writers, every callback invocation, every harness step, every sync operation and every access to a mutable package-level variable of the repository; all schedules with <=1 preemption with the registry thread and <=2 without it (thorough: 2 and 3, plus all triples of formats with <=1); non-trivial = every program; distinct by program",
 		Assumptions: []string{"bounded by the preemption bound and the hooked-point granularity; state in the standard library and third-party packages (html/template, runewidth, encoding/json caches) is not instrumented: the separate free-running -race pass of the same thread bodies is supporting evidence for it",
 			"tables and wrappers are never shared between threads (the property is about distinct tables)"},
@@ -573,14 +684,29 @@ func racePass(args []string) {
 	fs.Parse(args)
 	formats := c16Formats()
 	alone := map[string][]string{}
+	start := time.Now()
+	bad := int64(0)
+	runs := 0
+	// cold iteration first: nothing has touched the library yet in this process
+	{
+		var wg sync.WaitGroup
+		for g := 0; g < 16; g++ {
+			wg.Add(1)
+			g := g
+			go func() {
+				defer wg.Done()
+				var out []string
+				c16Body(formats[g%len(formats)], 0, &out, func(string) {})
+			}()
+			runs++
+		}
+		wg.Wait()
+	}
 	for i, f := range formats {
 		var out []string
 		c16Body(f, 0, &out, func(string) {})
 		alone[fmt.Sprint(i)] = out
 	}
-	start := time.Now()
-	bad := int64(0)
-	runs := 0
 	for it := 0; it < *iters; it++ {
 		var wg sync.WaitGroup
 		for g := 0; g < 16; g++ {
